@@ -58,7 +58,23 @@ T = [
  ('/tmp/mut2/C19/2', 'C19-4', 'C19', 'yes (after strengthening: parts of different subarrays and spectral windows, patterns drawn independently)', 'parts whose subarray pattern differs from their spectral-window pattern', 'VIOLATION (select(subarray, spw) selected the wrong parts)'),
  ('/tmp/mut2/C19/3', 'C19-5', 'C19', 'yes', 'sensor caches with the allow_repeats property and two consecutive compscans with the same label', 'VIOLATION'),
 ]
-T += [tuple(x) for x in []]
+T += [
+ ('/tmp/mut2/C07/1', 'C07-3', 'C07', 'yes', 'index= on an irregular chunking whose last chunk is larger than an earlier one and a slice stopping at least two chunks before the end', 'VIOLATION (_prune_chunks differs from the model / lazy read differs from x[index])'),
+ ('/tmp/mut2/C07/2', 'C07-4', 'C07', 'yes', 'mark_complete called twice for the same name on the NPY store', 'VIOLATION'),
+ ('/tmp/mut2/C07/3', 'C07-5', 'C07', 'yes', 'the S3 back-end with array names containing "_" below the bucket (object keys / two names differing only by _ vs -)', 'VIOLATION (S3 endpoint holds other keys than the documented ones)'),
+ ('/tmp/mut2/C08/1', 'C08-3', 'C08', 'yes', 'a connect timeout (black-holed host) on the S3 store', 'VIOLATION (classification table / unreachable store reported as missing chunk)'),
+ ('/tmp/mut2/C08/2', 'C08-4', 'C08', 'yes (after strengthening: wrong shapes that keep the number of elements)', 'an NPY chunk whose stored shape differs from the promised one but has the same number of elements', 'VIOLATION (wrongshape returned as data, BadChunk is due)'),
+ ('/tmp/mut2/C08/3', 'C08-5', 'C08', 'yes', 'direct_write=True and an OS failure inside the write / truncate of the temporary file', 'VIOLATION (failed put reported as success; reader sees neither old nor new)'),
+ ('/tmp/mut2/C17/1', 'C17-3', 'C17', 'yes', 'a capture before the applicable fix date with a known CBF dump period', 'VIOLATION (start/end times do not bracket the dumps by half a dump)'),
+ ('/tmp/mut2/C17/2', 'C17-4', 'C17', 'yes (after strengthening: the timestamps= override of the data source)', 'the timestamps= override together with a dumps preselect that is a proper sub-range', 'VIOLATION'),
+ ('/tmp/mut2/C17/3', 'C17-5', 'C17', 'yes', 'a positive non-unit preselect step on a metadata-only source (chunk_store=None)', 'VIOLATION (illegal preselect accepted)'),
+ ('/tmp/mut2/C18/1', 'C18-3', 'C18', 'yes (after strengthening: the older chunk_info layout without prefix items)', 'an archived flags stream whose chunk_info has no prefix item and relies on its <cbid>_<stream>_chunk_name key', 'VIOLATION'),
+ ('/tmp/mut2/C18/2', 'C18-4', 'C18', 'yes', 'the same key given in the URL query and as a keyword with different values', 'VIOLATION'),
+ ('/tmp/mut2/C18/3', 'C18-5', 'C18', 'yes', 'a file that exists but is not a valid RDB dump', 'VIOLATION'),
+ ('/tmp/mut2/C20/1', 'C20-3', 'C20', 'yes (after strengthening: _get_props is a yield point in the quick tier too)', 'two threads first-extracting different sensors and a preemption inside the loop over the shared props dict', 'VIOLATION (RuntimeError: dictionary changed size during iteration on a schedule)'),
+ ('/tmp/mut2/C20/2', 'C20-4', 'C20', 'yes', 'a preemption between the two statements that build channel_freqs, reader using the values at access time', 'VIOLATION'),
+ ('/tmp/mut2/C20/3', 'C20-5', 'C20', 'yes (after strengthening: per-session state privacy of the sessions the store makes; theorem pool_session_state_private)', 'two concurrent requests with different retry policies and a preemption between setting the policy and sending', 'VIOLATION (two sessions borrowed at the same time share one transport adapter)'),
+]
 
 
 def main(extra=None):
